@@ -102,6 +102,8 @@ type world struct {
 	both    bool                 // the both-family targets exist
 	rows    map[string][]row     // owner|clientloc -> rows in the order the server's reader enumerates them
 	byAddr  map[string][2]int    // address text -> (candidate index, family)
+	vis     map[string]*visInfo
+	nk      map[string]int // slot|client -> key draws the handler takes
 }
 
 func setKey(set []sym) string {
@@ -287,4 +289,43 @@ func closeWorlds() {
 		cache.m[k].close()
 	}
 	cache.m, cache.order = map[string]*world{}, nil
+}
+
+// visInfo: the declared candidates of a slot that a client location may see,
+// per family (0: v4, 1: v6): address -> weight, and the number with weight > 0.
+type visInfo struct {
+	weight [2]map[string]uint32
+	pos    [2]int
+}
+
+func (w *world) visible(s slot, cl string) *visInfo {
+	k := s.String() + "|" + cl
+	if v, ok := w.vis[k]; ok {
+		return v
+	}
+	v := &visInfo{}
+	for k, f := range []int{4, 6} {
+		if s.Fam != 0 && s.Fam != f {
+			continue
+		}
+		v.weight[k] = map[string]uint32{}
+		for i, c := range w.set {
+			if c.Tag != "" && c.Tag != cl {
+				continue
+			}
+			ip := addr4(i)
+			if f == 6 {
+				ip = addr6(i)
+			}
+			v.weight[k][ip.String()] = c.W
+			if c.W > 0 {
+				v.pos[k]++
+			}
+		}
+	}
+	if w.vis == nil {
+		w.vis = map[string]*visInfo{}
+	}
+	w.vis[k] = v
+	return v
 }
